@@ -51,6 +51,7 @@ def units(ctx):
             for i in range(len(cell4)):
                 yield ("quads", si, i)
     yield from hist.hist_units()
+    yield ("long",)
     for wi in range(len(WIDE)):
         for i in range(12):
             yield ("wide", wi, i)
@@ -72,6 +73,14 @@ def _mk(notes):
 
 
 def gen_cases(unit, ctx):
+    if unit[0] == "long":
+        # scale: dozens to a hundred notes on three channels, ticks in the hundreds
+        for n in (16, 48, 120):
+            for step in (5, 7):
+                for steps in ([4], [6, 4], [8, 12], [120, 80], [3, 4]):
+                    ns = lib.long_desc(n, ctx["p"] - 2, (ctx["ch"][0], ctx["ch"][1], 9), step)
+                    yield {"steps": steps, "notes": [list(x) for x in ns], "events": [["ts", 0, 3, 4], ["ks", step * n // 2, "G"]]}
+        return
     if unit[0] == "hist":
         for h in hist.hist_of_unit(unit):
             for steps in ([4], [6, 4], [8, 12], [120, 80]):
